@@ -322,6 +322,13 @@ pub struct Replay {
     pub log_tail: Vec<String>,
     pub minimised: bool,
     pub found_at: (u64, u64),
+    /// index range [from, upto) of the runs the same worker process had made before this one
+    /// (base seed in `found_at.0`): a failure that shows only after them means the library keeps
+    /// state from one call to the next (a process-wide cache, say)
+    #[serde(default)]
+    pub prelude: Option<(u64, u64)>,
+    #[serde(default)]
+    pub thorough: bool,
 }
 
 pub fn violations_for<'a>(rr: &'a RunResult, prop: &str) -> Vec<&'a Violation> {
@@ -498,7 +505,7 @@ pub fn worker(cfg: &WorkerCfg) -> BatchOut {
         if rr.stuck {
             for v in &rr.violations {
                 out.sig_counts.entry(v.signature.clone()).or_insert((0, i)).0 += 1;
-                let rp = Replay { version: 1, property: cfg.prop.clone(), oracle: v.oracle.clone(), signature: v.signature.clone(), message: v.message.clone(), plan: plan.clone(), choices: vec![], log_hash: rr.log_hash, log_tail: rr.log_tail.clone(), minimised: false, found_at: (cfg.base_seed, i) };
+                let rp = Replay { version: 1, property: cfg.prop.clone(), oracle: v.oracle.clone(), signature: v.signature.clone(), message: v.message.clone(), plan: plan.clone(), choices: vec![], log_hash: rr.log_hash, log_tail: rr.log_tail.clone(), minimised: false, found_at: (cfg.base_seed, i), prelude: Some((cfg.from, i)), thorough: crate::plan::THOROUGH.load(std::sync::atomic::Ordering::Relaxed) };
                 let fname = format!("{}/{}-{}-{:016x}.json", cfg.replay_dir, cfg.prop, sanitize(&v.oracle), crate::rng::hash_str(&v.signature));
                 if std::fs::write(&fname, serde_json::to_vec_pretty(&rp).unwrap()).is_ok() {
                     out.replays.push(format!("{}\t{}", v.signature, fname));
@@ -579,6 +586,8 @@ pub fn worker(cfg: &WorkerCfg) -> BatchOut {
                 log_tail: frr.log_tail.clone(),
                 minimised: minim,
                 found_at: (cfg.base_seed, i),
+                prelude: Some((cfg.from, i)),
+                thorough: crate::plan::THOROUGH.load(std::sync::atomic::Ordering::Relaxed),
             };
             let fname = format!("{}/{}-{}-{:016x}.json", cfg.replay_dir, cfg.prop, sanitize(&v.oracle), crate::rng::hash_str(&v.signature));
             if std::fs::write(&fname, serde_json::to_vec_pretty(&rp).unwrap()).is_ok() {
